@@ -302,6 +302,37 @@ def _publish(repo, rep):
               "as compiled (a concurrent reader of the flag never sees a "
               "missing _render)", construct="publish-before-flag",
               where=L.where(f), detail=str(order))
+    # nobody else may raise the flag: every 'self._cooked = True' in the
+    # package must follow the publication in the same function
+    for m in repo.modules.values():
+        for n in ast.walk(m.tree):
+            if isinstance(n, ast.Assign) and isinstance(
+                    n.targets[0], ast.Attribute) and \
+                    n.targets[0].attr == "_cooked" and \
+                    isinstance(n.value, ast.Constant) and \
+                    n.value.value is True:
+                fn = n
+                while fn is not None and not isinstance(fn, ast.FunctionDef):
+                    fn = getattr(fn, "_parent", None)
+                pub = [x.lineno for x in ast.walk(fn)
+                       if isinstance(x, ast.Call) and src(x.func) == "setattr"
+                       and "function" in src(x)] if fn is not None else []
+                rep.check(bool(pub) and min(pub) < n.lineno, "R14.4",
+                          "%s.%s" % (m.name, fn.name if fn else "?"),
+                          "the compiled flag is raised only after the "
+                          "compiled functions were published (line %d)"
+                          % n.lineno, construct="early-flag:%s" % (
+                              fn.name if fn else "?"),
+                          where="%s:%d" % (m.relpath, n.lineno))
+    # constructors do not mutate argument objects of the caller
+    from .c16 import fresh_search_path
+    okf, detail = fresh_search_path(repo)
+    pf = repo.func(ZT + "PageTemplateFile.__init__")
+    rep.check(okf, "R14.4", pf.qualname, "the search path that gets the "
+              "template's directory prepended is a private copy: the "
+              "caller's list (shared with the loader) is left unmodified",
+              construct="caller-list-mutated", where=L.where(pf),
+              detail=detail)
     t = " ".join(src(s) for s in f.node.body)
     rep.check("builtins_dict = self.builtins.copy()" in t and
               "builtins_dict.update(self.extra_builtins)" in t, "R14.4",
